@@ -54,6 +54,11 @@ func (r *Runner) replayLight(l *Line) lineResult {
 	lc := &lightClient{}
 	p := utreexo.NewAccumulator()
 	lc.full = &p
+	if r.sy.prefix {
+		// leaf hashes that share their first 12 bytes: the pointer forest keys its leaf
+		// index by that prefix (by design) and cannot follow along
+		lc.full = nil
+	}
 	in := &Inst{Name: "lightclient", Kind: KStump}
 	steps := append(append([]Step{}, l.Hist...), l.Step)
 	for i := range steps {
@@ -282,7 +287,8 @@ func (w *World) lightBlock(in *Inst, lc *lightClient, st *Step) {
 	for i, a := range ba.adds {
 		leaves[i] = utreexo.Leaf{Hash: a}
 	}
-	if e := lc.full.Modify(leaves, ba.dels, utreexo.Proof{Targets: ba.targets, Proof: ba.proof}); e == nil && len(lc.H) > 0 {
+	if lc.full == nil {
+	} else if e := lc.full.Modify(leaves, ba.dels, utreexo.Proof{Targets: ba.targets, Proof: ba.proof}); e == nil && len(lc.H) > 0 {
 		fp, e := lc.full.Prove(lc.H)
 		if e != nil {
 			w.fail(props, in, "hold.fullprover", "full prover cannot prove the held leaves: "+e.Error(), nil, nil)
@@ -340,7 +346,8 @@ func (w *World) lightUndo(in *Inst, lc *lightClient, st *Step) {
 	lc.S = lc.stumps[len(lc.stumps)-1]
 	lc.stumps = lc.stumps[:len(lc.stumps)-1]
 	// the full prover is rolled back with its own Undo
-	if e := lc.full.Undo(uint64(st.K), utreexo.Proof{Targets: targets, Proof: proofH}, dels, w.sy.Hs(st.Pre)); e != nil {
+	if lc.full == nil {
+	} else if e := lc.full.Undo(uint64(st.K), utreexo.Proof{Targets: targets, Proof: proofH}, dels, w.sy.Hs(st.Pre)); e != nil {
 		w.fail([]string{"C06"}, in, "error", "Pollard.Undo failed: "+e.Error(), nil, nil)
 	}
 	w.n = prevN
